@@ -63,7 +63,7 @@ def cases(tier, seed):
 def floors(tier):
     k = 1 if tier == "quick" else 20
     f = {"runs": 400 * k, "decided:occupancy_events": 50000 * k, "decided:end_notifications": 3000 * k,
-         "decided:result_deliveries": 8000 * k, "runs:sjwd_false": 20 * k, "runs:with_failure": 40 * k,
+         "decided:result_deliveries": 8000 * k, "decided:status_of_running_trial": 50000 * k, "runs:sjwd_false": 20 * k, "runs:with_failure": 40 * k,
          "runs:proc_backend": 80 * k, "runs:with_external_stop": 15 * k, "external_stops_notified": 15 * k,
          "decided:job_end_reported": 300 * k}
     for kd in KINDS:
@@ -263,6 +263,12 @@ def check_trace(o, events, n_workers, sjwd, kind, exc=None, busy_probe=None, fai
                 batch_status[tid] = st
                 if st in ("completed", "failed", "stopped"):
                     occupied.discard(tid)
+                if st == "paused" and state.get(tid) == "running":
+                    # the trial was started / resumed and no decision or end has been seen since: its job occupies a worker
+                    o.count("decided:status_of_running_trial")
+                    V("life_cycle", "backend_reports_a_running_trial_as_paused" + (":after_resume" if runs.get(tid, 0) > 0 else ""), trial=tid)
+                elif state.get(tid) == "running":
+                    o.count("decided:status_of_running_trial")
             # bounded progress: a job that ended by itself is reported as ended by the second poll after
             for tid in list(job_ended):
                 if state.get(tid) != "running" or batch_status.get(tid) in ("completed", "failed", "stopped"):
